@@ -52,7 +52,18 @@ class C17Monitor(object):
             nv = c.notional_value
             if cls in ("CouponPayingSecurity", "FixedIncomeSecurity"):
                 if abs(nv - tgt) > 1e-9 * scale:
-                    sim.violation("c17_notional_target", "%s (%s) has notional %r after Rebalance, target w x notional = %r (w=%r, base=%r)" % (cn, cls, nv, tgt, w, base), {"cls": cls, "by_cash": cls == "FixedIncomeSecurity"})
+                    fl = {"cls": cls, "by_cash": cls == "FixedIncomeSecurity"}
+                    if cls == "FixedIncomeSecurity":
+                        # the listed defect is specific: the missing *notional* (target - held par) is handed to allocate() as a
+                        # cash amount, so the par bought is that amount divided by the unit price - any other outcome is another defect
+                        p = feed.price(m.t, cn)
+                        unit = p * c.multiplier
+                        nv0 = ctx["cur"].get(cn, (0.0,))[0]
+                        if unit == unit and unit != 0:
+                            pred = nv0 + (tgt - nv0) / unit
+                            slack = (1.0 if integer else 0.0) + (costs + abs(m.comm(1.0, unit)) * 2) / abs(unit) + 1e-9 * scale
+                            fl["notional_gap_spent_as_cash"] = bool(abs(nv - pred) <= slack)
+                    sim.violation("c17_notional_target", "%s (%s) has notional %r after Rebalance, target w x notional = %r (w=%r, base=%r)" % (cn, cls, nv, tgt, w, base), fl)
             elif cls == "Security":
                 p = feed.price(m.t, cn)
                 unit = abs(p * c.multiplier)
